@@ -84,7 +84,20 @@ class Prop:
 _W = {}
 
 
-def _winit(prop_factory, server_paths, envs):
+def _limit_memory():
+    """soft address-space limit for the Python worker itself (a runaway generator must fail with MemoryError,
+    not wake the OOM killer); the sanitized servers reset it (ASan needs a huge virtual address space)"""
+    import resource
+    try:
+        soft, hard = resource.getrlimit(resource.RLIMIT_AS)
+        resource.setrlimit(resource.RLIMIT_AS, (6 * 1024 ** 3, hard))
+    except Exception:
+        pass
+
+
+def _winit(prop_factory, server_paths, envs, limit=False):
+    if limit:
+        _limit_memory()
     _W["prop"] = prop_factory()
     _W["paths"] = server_paths
     _W["envs"] = envs
@@ -282,7 +295,7 @@ def run_property(prop_factory, tier, seed, replay=None):
     guard = prop.time_guard_s[tier]
     inconclusive = False
     ctx = mp.get_context("fork")
-    with ctx.Pool(nworkers, initializer=_winit, initargs=(prop_factory, paths, envs)) as pool:
+    with ctx.Pool(nworkers, initializer=_winit, initargs=(prop_factory, paths, envs, True)) as pool:
         # 2. exhaustive tier
         ex_n = 0
         ex_done = True
